@@ -32,6 +32,10 @@ import (
 
 // spec of one session (a client and a server talking over an in-memory duplex).
 type spec struct {
+	// shared is the extension offer list handed to the Dialer. In the concurrent run
+	// all sessions of a case share ONE slice (a Dialer value with Extensions set is
+	// meant to be reused); in the run-alone baseline every session has its own.
+	shared  []httphead.Option
 	id      int
 	seed    int64
 	server  int // 0 ws.Upgrader, 1 ws.HTTPUpgrader behind net/http
@@ -217,9 +221,20 @@ func extString(opts []httphead.Option) string {
 	return strings.Join(parts, ",")
 }
 
-func negotiator() func(httphead.Option) (httphead.Option, error) {
+func negotiator(t *transcript) func(httphead.Option) (httphead.Option, error) {
 	e := &wsflate.Extension{Parameters: wsflate.DefaultParameters}
-	return e.Negotiate
+	return func(o httphead.Option) (httphead.Option, error) {
+		t.add("S offer %s", extString([]httphead.Option{o}))
+		return e.Negotiate(o)
+	}
+}
+
+func offerList() []httphead.Option {
+	o := httphead.Option{Name: []byte("permessage-deflate")}
+	o.Parameters.Set([]byte("client_max_window_bits"), nil)
+	o.Parameters.Set([]byte("server_no_context_takeover"), nil)
+	o.Parameters.Set([]byte("client_no_context_takeover"), nil)
+	return []httphead.Option{o}
 }
 
 // ---- net/http server for the HTTPUpgrader role
@@ -253,7 +268,7 @@ func startHTTP() {
 				defer close(tg.d)
 				u := ws.HTTPUpgrader{Protocol: func(p string) bool { return p == protoOf(tg.s) }}
 				if compressedMode(tg.s) {
-					u.Negotiate = negotiator()
+					u.Negotiate = negotiator(tg.t)
 				}
 				conn, rw, hs, err := u.Upgrade(r, w)
 				if err != nil {
@@ -285,7 +300,7 @@ func runSession(s spec) *transcript {
 			defer close(sdone)
 			u := ws.Upgrader{Protocol: func(p []byte) bool { return string(p) == protoOf(s) }}
 			if compressedMode(s) {
-				u.Negotiate = negotiator()
+				u.Negotiate = negotiator(t)
 			}
 			hs, err := u.Upgrade(sc)
 			serve(s, sc, hs, err, t)
@@ -293,7 +308,10 @@ func runSession(s spec) *transcript {
 	}
 	d := ws.Dialer{Protocols: []string{"other.v9", protoOf(s)}, NetDial: func(ctx context.Context, n, a string) (net.Conn, error) { return cc, nil }}
 	if compressedMode(s) {
-		d.Extensions = []httphead.Option{wsflate.DefaultParameters.Option()}
+		d.Extensions = s.shared
+		if d.Extensions == nil {
+			d.Extensions = offerList()
+		}
 	}
 	var conn net.Conn
 	var br *bufio.Reader
@@ -556,6 +574,10 @@ func subSessions() mon.Sub {
 			pool.Configure(true, pool.ReuseLIFO, true, true)
 			st0 := pool.ReadStats()
 			together := make([]*transcript, n)
+			sharedOffer := offerList()
+			for i := range specs {
+				specs[i].shared = sharedOffer
+			}
 			var wg sync.WaitGroup
 			done := make(chan struct{})
 			for i := range specs {
